@@ -1,5 +1,5 @@
 """C05 — formatter contract (structural clauses; the round trip parse(format(x)) == x is not decided)."""
-from ..rules import text, data, fields, eqord, parser, vis
+from ..rules import text, data, fields, eqord, parser, features, vis
 
 EXPL = ("Decides: store_into_bytes refuses exactly when buffer.len() < len_in_str() and no store to the buffer lies on that path; it "
         "returns Ok(len_in_str()); to_string allocates exactly len_in_str() bytes and fills them with that one formatter, Display "
@@ -14,7 +14,7 @@ EXPL = ("Decides: store_into_bytes refuses exactly when buffer.len() < len_in_st
 
 
 def run(ctx):
-    cfgs = ["rel", "strict"] if ctx.tier == "quick" else ["rel", "strict", "dbg", "unsafe", "nodef", "alloc"]
+    cfgs = ["rel", "strict", "unsafe"] if ctx.tier == "quick" else ["rel", "strict", "dbg", "unsafe", "nodef", "alloc"]
     ctx.progs(cfgs)  # build all configurations in parallel
     for c in cfgs:
         prog = ctx.prog(c)
@@ -31,6 +31,10 @@ def run(ctx):
         ctx.guard("C05", "parse-phase", lambda: parser.error_origin_by_phase(ctx, prog))
         ctx.guard("C05", "parse-look", lambda: parser.strict_lookahead(ctx, prog))
         ctx.guard("C05", "parse-forms", lambda: parser.entry_forms(ctx, prog))
+        if c == "unsafe":
+            # every belief (invariant!) inside the formatter / parser helpers is backed by a run-time check of the safe build: a belief
+            # that is not (e.g. a bound on the CALLER's buffer) panics in debug builds and is undefined behaviour under `unsafe`
+            ctx.guard("C05", "invpair", lambda: features.invpair(ctx, prog, scope=r"hash::algorithms::|::store_into_bytes|::to_string|core::fmt::Display>::fmt|::len_in_str|::from_bytes|::from_str", floors=(8, 6)))
         ctx.guard("C05", "parse-bs", lambda: parser.block_size_field(ctx, prog))
         ctx.guard("C05", "parse-end", lambda: parser.end_classification(ctx, prog))
         ctx.guard("C05", "parse-out", lambda: parser.driver_outcomes(ctx, prog))
